@@ -110,3 +110,14 @@ Definition alls_ok (n : nat) (alls : list (list nat)) : bool :=
 
 Definition dinit (n : nat) (alls : list (list nat)) (progs : list (list dop)) : dstate :=
   mkD (repeat [] n) alls (map (fun p => mkTask [] [] false p []) progs) [] [].
+
+(* Sequential acceptor (used by the scripted one-operation-at-a-time qdqueue mode of the check): with no other operation in
+   flight, a dequeue on shepherd `me` from sub-queues `qs` may return NULL only when every sub-queue is empty, and an element
+   only when it is the head of the shepherd's own sub-queue or, that one being empty, the head of some sub-queue. *)
+Definition is_empty (q : list N) : bool := match q with [] => true | _ => false end.
+Definition head_is (x : N) (q : list N) : bool := match q with y :: _ => N.eqb x y | [] => false end.
+Definition seq_deq_ok (qs : queues) (me : nat) (r : option N) : bool :=
+  match r with
+  | None => forallb is_empty qs
+  | Some x => if is_empty (nth me qs []) then existsb (head_is x) qs else head_is x (nth me qs [])
+  end.
